@@ -18,7 +18,16 @@ Two parts.
 (2) BORDERS - explicit-state exploration (mc.explore) of stroke histories on a real 3x3 table, plain
     and with one merged rectangle, against a unit-edge model: a stroke paints its unit edges, a
     cell side reports the latest paint of its edge (so both neighbours agree), edges interior to the
-    rectangle report None; every distinct state of the probing plans is saved, reopened and compared.
+    rectangle report None; every distinct state of the probing plans is saved, reopened and compared,
+    and "rs" events continue a history on the document as reloaded from its own file.
+    Plans (border_plan): geometry "all" = any stroke at every step, "collinear" = later strokes lie on
+    the first stroke's grid line (the only strokes that can share an edge or a stored layer with it);
+    borders "all" = B1/B2/B3 at every step, "cycle"/"cycle3"/"one" = rotations that keep successive
+    looks distinct (B3 is ONE Border object reused, so its order stamp is shared between strokes).
+
+Known findings (known_findings.json): float32 style floats; cell-style fingerprint collision; a merge
+anchor never reports its bottom/right border. Development aids: C15_ONLY=styles|borders, C15_PLAN=i,j
+run a subset (the coverage floors then fail by design, exit 2 unless a violation is found).
 """
 from __future__ import annotations
 
@@ -334,7 +343,7 @@ def eval_style_case(case):
             return fails, stats
         views["file-after-read"] = read_table(Document(pb).sheets[0].tables[0])
     except Exception as e:  # noqa: BLE001
-        fail("harness", "-", f"raised-{type(e).__name__}", f"{type(e).__name__}: {e}")
+        fail("reopen-or-read", "-", f"raised-{type(e).__name__}", f"reopening the saved document or reading its cells raised {type(e).__name__}: {e}")
         _rm(pa, pb)
         return fails, stats
 
@@ -928,7 +937,8 @@ def border_plan(tier, seed):
     if tier == "quick":
         return [
             ("all-cycle", [plain], 2, False),
-            ("collinear-cycle3", [plain, merged(seed)], 2, True),
+            ("collinear-cycle3", [plain], 2, True),
+            ("collinear-one", [merged(seed)], 2, True),
             ("collinear-one-reopen", [plain], 2, False),
             ("collinear-cycle3", [merged(seed + 1)], 2, False),
         ]
